@@ -1,6 +1,7 @@
 import Toq.Driver.QJson
 import Toq.Model.ChanMetrics
 import Toq.Model.ChanMetricsPath
+import Toq.Model.ChanMetricsFos
 /-! Driver front end for C20 (channel distance measures: certificate checkers of `Toq.Model.ChanMetrics`).
 
 Ops (matrices in the `QJson` dyadic encoding, row-major; Choi matrices on `X ⊗ Y` with index `x·dY + y`, `N = dX·dY`;
@@ -25,7 +26,17 @@ Code paths and programs (`Toq.Model.ChanMetricsPath`; exact matrices are answere
 * `c20_cb_program {"dX","dY","J","Y0","Y1"}` → `{"block":mat 2N×2N,"T0":mat dX×dX,"T1":mat dX×dX}` (the constraint matrix
   `[[Y0,−J],[−Jᴴ,Y1]]` and the two partial traces whose spectral norms are the objective)
 * `c20_cf_program {"dX","dY","J1","J2","Q","lam"}` → `{"block":mat 2N×2N,"slack":mat dX×dX}` (`[[J1,Qᴴ],[Q,J2]]` and
-  `½(Tr_Y Q + (Tr_Y Q)ᴴ) − lam·1`) -/
+  `½(Tr_Y Q + (Tr_Y Q)ᴴ) − lam·1`)
+
+Channel `fidelity_of_separability` (`Toq.Model.ChanMetricsFos`; rational matrices go in as `{"den":D,"re":[ints],"im":[ints]}` = entries
+`(re + i·im)/D`, row-major):
+
+* `c20_fos_path {"n","dims":[…],"rho":n×n[,"L":n×k,"k","v":n×1]}` → `{"path":"not_density|not_tripartite|not_pure|program|undecided",
+  "density","psd","trace","pure":"yes|no|unknown"[,"dR","dA","dB"]}` (the cascade of guards on exact verdicts)
+* `c20_fos_program {"dB","dA","dR","k","psi":(dB·dA·dR)²,"choi":(dR·dA^k)²}` → every expression of the picos problem at the point `choi`:
+  `{"forms_agree":bool (the line-by-line mirror `exprs` and the index-tuple form `tupleExprs` agree exactly in every expression),"dim_choi","choi_dims","sys_ext","psi_rab":mat,"choi_partial":mat,"trace":mat dR×dR (partial_trace(choi,[1..k]) − I),
+  "sym":mat ((I⊗sym) choi (I⊗sym) − choi),"pts":[mat…] (partial_transpose(choi,[1..i]), i = 1…k),"obj":{"re","im"} (tr(pi_sym·…))}`
+* `c20_fos_return {"v":rat}` → `{"value":rat}` (`2·v − 1`) -/
 open Lean Toq.ChanMetrics EMat
 
 namespace Toq.Driver.C20
@@ -186,9 +197,77 @@ def hCfProgram : Handler := fun j => do
   let lam ← getRat j "lam"
   return Json.mkObj [("block", ematJson (cfPrimalBlock J1 J2 Q)), ("slack", ematJson (cfLoewnerSlack dX dY Q lam))]
 
+/-! ### channel fidelity of separability -/
+
+/-- `{"den":D,"re":[ints],"im":[ints]}` → row-major array of `count` exact entries -/
+def parseQArr (j : Json) (count : Nat) : Except String (Array QI) := do
+  let den := (getNat j "den").toOption.getD 1
+  if den == 0 then throw "rational matrix: zero denominator"
+  let re ← getIntArray j "re"
+  let im := (getIntArray j "im").toOption.getD (Array.replicate count 0)
+  if re.size != count || im.size != count then throw s!"rational matrix: expected {count} entries, got {re.size}"
+  return (Array.range count).map fun t => ⟨((re[t]! : Int) : Rat) / (den : Rat), ((im[t]! : Int) : Rat) / (den : Rat)⟩
+
+def getQArr (j : Json) (key : String) (count : Nat) : Except String (Array QI) := do
+  parseQArr (← j.getObjVal? key) count
+
+def getQMat (j : Json) (key : String) (n m : Nat) : Except String (EMat n m) := do
+  let a ← getQArr j key (n * m)
+  return EMat.ofFn fun i c => a[i.val * m + c.val]!
+
+def fnMatJson (rows cols : Nat) (A : Nat → Nat → QI) : Json :=
+  let cells := (List.range rows).flatMap fun i => (List.range cols).map fun c => A i c
+  Json.mkObj [("re", Json.arr (cells.map fun z => ratJson z.re).toArray),
+    ("im", Json.arr (cells.map fun z => ratJson z.im).toArray)]
+
+open Toq.ChannelProps Toq.ChanMetrics.Fos in
+def hFosPath : Handler := fun j => do
+  let n ← getNat j "n"
+  let dims ← getNatList j "dims"
+  let ρ : EMat n n ← getQMat j "rho" n n
+  let k := (getNat j "k").toOption.getD 0
+  let L : Option (EMat n k) ← if isNull j "L" then pure none else (some <$> getQMat j "L" n k)
+  let v : Option (EMat n 1) ← if isNull j "v" then pure none else (some <$> getQMat j "v" n 1)
+  let dens := densityV ρ L v
+  let pure' := pureV ρ
+  let path := fosPath dens dims pure'
+  let base := [("path", Json.str path.str), ("density", Json.str dens.str), ("psd", Json.str (psdV ρ L v).str),
+    ("trace", Json.str (traceV ρ).str), ("pure", Json.str pure'.str)]
+  match path with
+  | .program dR dA dB =>
+    return Json.mkObj (base ++ [("dR", Json.num dR), ("dA", Json.num dA), ("dB", Json.num dB)])
+  | _ => return Json.mkObj base
+
+open Toq.ChanMetrics.Fos in
+def hFosProgram : Handler := fun j => do
+  let dB ← getNat j "dB"
+  let dA ← getNat j "dA"
+  let dR ← getNat j "dR"
+  let k ← getNat j "k"
+  if k == 0 then return reject "LevelZero"
+  let NP := dB * dA * dR
+  let NC := dimChoi dR dA k
+  let psi ← getQArr j "psi" (NP * NP)
+  let choi ← getQArr j "choi" (NC * NC)
+  let e := exprs (fun z : Int => QI.ofRat (z : Rat)) dB dA dR k (look psi NP) (look choi NC)
+  let f2 : Rat := ((factN k * factN k : Nat) : Rat)
+  let eT := tupleExprs (fun z : Int => QI.ofRat (z : Rat)) dB dA dR k (look psi NP) (look choi NC)
+  return Json.mkObj [("forms_agree", Json.bool (Exprs.agree dB dA dR k e eT)), ("dim_choi", Json.num NC), ("choi_dims", natListJson (choiDims dR dA k)),
+    ("sys_ext", natListJson (sysExt k)),
+    ("psi_rab", fnMatJson NP NP e.psiRAB), ("choi_partial", fnMatJson (dR * dA) (dR * dA) e.choiPartial),
+    ("trace", fnMatJson dR dR e.traceRes),
+    ("sym", fnMatJson NC NC fun i c => QI.smul (1 / f2) (e.symRes i c)),
+    ("pts", Json.arr (e.pts.map fun P => fnMatJson NC NC P).toArray),
+    ("obj", qiJson (QI.smul (1 / 2) e.obj2))]
+
+def hFosReturn : Handler := fun j => do
+  let v ← getRat j "v"
+  return Json.mkObj [("value", ratJson (Toq.ChanMetrics.Fos.fosReturn v))]
+
 def handlers : List (String × Handler) :=
   [("c20_cb_primal", hCbPrimal), ("c20_cb_dual", hCbDual), ("c20_cf_primal", hCfPrimal), ("c20_cf_dual", hCfDual),
    ("c20_cb_path", hCbPath), ("c20_cf_path", hCfPath), ("c20_dual_choi", hDualChoi), ("c20_cb_program", hCbProgram),
-   ("c20_cf_program", hCfProgram)]
+   ("c20_cf_program", hCfProgram), ("c20_fos_path", hFosPath), ("c20_fos_program", hFosProgram),
+   ("c20_fos_return", hFosReturn)]
 
 end Toq.Driver.C20
